@@ -342,7 +342,9 @@ def resolve_anchor(anchor, text, mask, body_open, body_close):
         if where == "head":
             return ob
         if where == "body-start":
-            return ob + 1
+            # skip the `let x = v[__k_x];` statement introduced by rule R2
+            m = re.match(r"\s*let \w+ = \w+\[__k_\w+\];", text[ob + 1:cb])
+            return ob + 1 + (m.end() if m else 0)
         if where == "body-end":
             return cb
         if where == "after":
@@ -443,6 +445,8 @@ def parse_template(path):
                     raise LostAnchor("bad rewrite line %d" % lineno)
                 cur.rewrites.append((m.group(1), m.group(2).encode().decode("unicode_escape"),
                                      m.group(3).encode().decode("unicode_escape")))
+            elif s.startswith("//@fnattr"):
+                cur.fnattrs = getattr(cur, "fnattrs", []) + [s[len("//@fnattr"):].strip()]
             elif s.startswith("//@spec"):
                 sec = ("spec", [], lineno)
                 cur.sections.append(sec)
@@ -545,7 +549,7 @@ def process_block(blk, report, twin=None):
     elif blk.sections:
         raise LostAnchor("sections on non-fn item " + blk.name)
 
-    head = "".join(a + "\n" for a in keep_attrs)
+    head = "".join(a + "\n" for a in keep_attrs) + "".join(a + "\n" for a in getattr(blk, "fnattrs", []))
     report.append({
         "item": blk.name, "kind": blk.kind, "file": blk.path, "impl": blk.opts.get("impl"),
         "sha256": sha, "tags": blk.tags, "rewrites": applied,
